@@ -226,6 +226,12 @@ Proof.
     + rewrite Q5, Q2. exact H2.
     + rewrite Q5, Q2. exact H3.
     + rewrite Q2, Q3, Q4. intros Hk. destruct (H4 Hk) as [A B]. split; [exact A|]. destruct B as [B|B]; [left; exact B|right; auto].
+  - (* TWriteBlock *)
+    destruct HI as [H1 H2 H3 H4].
+    constructor; cbn [with_pcs t_stop t_state t_wr t_sock t_cnc t_health t_hquit]; try assumption; intros H; discriminate.
+  - (* TWriteReturn *)
+    destruct HI as [H1 H2 H3 H4].
+    constructor; cbn [with_pcs t_stop t_state t_wr t_sock t_cnc t_health t_hquit]; try assumption; intros H; discriminate.
 Qed.
 
 Lemma TInv_run ls : forall c c', TInv c -> trun true c ls = Some c' -> TInv c'.
@@ -237,10 +243,10 @@ Qed.
 
 Lemma settled_closed_exited c :
   TInv c -> t_state c = c_connectionClosed -> tconn_settled c = true ->
-  0 <= t_wr c <= 2 -> 0 <= t_rd c <= 1 ->
+  0 <= t_wr c <= 3 -> t_wr c <> 3 -> 0 <= t_rd c <= 1 ->
   tconn_exited c = true /\ t_sock c = true.
 Proof.
-  intros [H1 H2 H3 H4] Hst Hset Hwr Hrd.
+  intros [H1 H2 H3 H4] Hst Hset Hwr Hw3 Hrd.
   unfold tconn_settled, tenabled in Hset.
   rewrite Hst in H1. rewrite Z.eqb_refl in H1.
   apply andb_true_iff in Hset as [Hset Eh]. apply andb_true_iff in Hset as [Hset Ed].
@@ -255,7 +261,7 @@ Proof.
 Qed.
 
 (* ranges of the program counters *)
-Definition pcs_ok (c : tconn) : Prop := 0 <= t_wr c <= 2 /\ 0 <= t_rd c <= 1.
+Definition pcs_ok (c : tconn) : Prop := 0 <= t_wr c <= 3 /\ 0 <= t_rd c <= 1.
 
 Lemma check_exchanges_pcs c : pcs_ok c -> pcs_ok (check_exchanges c).
 Proof. pose proof (check_exchanges_io c) as (_ & _ & _ & _ & S5 & S6 & _). unfold pcs_ok. rewrite S5, S6. tauto. Qed.
@@ -292,6 +298,8 @@ Proof.
   - apply check_exchanges_pcs. exact HP.
   - unfold protocol_error. pose proof (conn_close_pcs c HP) as H. unfold pcs_ok in *. cbn. exact H.
   - apply connection_error_pcs, HP.
+  - unfold pcs_ok in *. cbn. lia.
+  - unfold pcs_ok in *. cbn. lia.
 Qed.
 
 Lemma pcs_run fixw ls : forall c c', pcs_ok c -> trun fixw c ls = Some c' -> pcs_ok c'.
@@ -301,15 +309,17 @@ Proof.
   - destruct (tstep fixw c l) as [c1|] eqn:Hs; [|discriminate]. eapply IH; [|exact Hr]. eapply pcs_step; eauto.
 Qed.
 
-(* A connection of the repaired code that reached state Closed and whose goroutines have
-   taken every exit step open to them: reader, writer and health checker have exited and the
-   library has closed the socket -- after ANY history of closes, faults, errors and calls. *)
+(* A connection of the repaired code that reached state Closed, whose frame writer is not held
+   inside a Write by a peer that does not read, and whose goroutines have taken every exit step
+   open to them: reader, writer and health checker have exited and the library has closed the
+   socket -- after ANY history of closes, faults, errors and calls. *)
 Theorem conn_goroutines_exit : forall health ls c,
   trun true (tconn_init health) ls = Some c ->
   t_state c = c_connectionClosed -> tconn_settled c = true ->
+  t_wr c <> 3 ->
   tconn_exited c = true /\ t_sock c = true.
 Proof.
-  intros health ls c Hr Hst Hset.
+  intros health ls c Hr Hst Hset Hw3.
   pose proof (TInv_run ls _ _ (TInv_init health) Hr) as HI.
   assert (HP0 : pcs_ok (tconn_init health)) by (unfold pcs_ok; cbn; lia).
   destruct (pcs_run true ls _ _ HP0 Hr) as [P1 P2].
@@ -323,6 +333,17 @@ Theorem conn_goroutines_exit_unrepaired_refuted :
     t_state c = c_connectionClosed /\ tconn_settled c = true /\ t_rd c = 0 /\ t_sock c = false.
 Proof.
   exists [TWriteFault; TWriteErr; TWriterDeferred].
+  eexists. split; [vm_compute; reflexivity|]. vm_compute. repeat split; reflexivity.
+Qed.
+
+(* Without the hypothesis on the writer the statement is false also for the repaired code:
+   a frame writer blocked in Write by a peer that stopped reading never sees stopCh; the
+   connection is Closed, the socket stays open, reader and writer stay. *)
+Theorem conn_goroutines_exit_stalled_writer_refuted :
+  exists ls c, trun true (tconn_init false) ls = Some c /\
+    t_state c = c_connectionClosed /\ tconn_settled c = true /\ t_wr c = 3 /\ t_rd c = 0 /\ t_sock c = false.
+Proof.
+  exists [TWriteBlock; TClose].
   eexists. split; [vm_compute; reflexivity|]. vm_compute. repeat split; reflexivity.
 Qed.
 
@@ -408,7 +429,7 @@ Proof.
   destruct (HK Hstate) as [Hl Hsw].
   assert (Hconn : forall c, In c (w_conns w) -> tconn_exited c = true /\ t_sock c = true).
   { intros c Hin. rewrite Forall_forall in HC. destruct (HC c Hin) as [HI [P1 P2]].
-    rewrite forallb_forall in Qc, Sc. apply settled_closed_exited; auto. specialize (Qc c Hin). lia. }
+    rewrite forallb_forall in Qc, Sc. specialize (Qc c Hin). apply settled_closed_exited; auto; lia. }
   split.
   - intros e He. destruct (g_kind e); cbn [kind_exited].
     + rewrite Hl in Sa. lia.
